@@ -23,6 +23,39 @@ func Scalars(m *testproto.TestAllTypes, name string) {
 	}
 }
 
+// Small fills default_int32, default_int64 (implicit presence) and optional_int32 (explicit presence, by case split).
+func Small(m *testproto.TestAllTypes, name string) {
+	m.DefaultInt32 = vt.Int32(name + ".i32")
+	m.DefaultInt64 = vt.Int64(name + ".i64")
+	if vt.Choose(name+".hasOpt", 2) == 1 {
+		v := vt.Int32(name + ".opt")
+		m.OptionalInt32 = &v
+	}
+}
+
+// Subsets returns the option subsets explored: every subset of the n options of size <= 2 plus the full set
+// (quick), or all 2^n subsets (thorough).
+func Subsets(n int) []int {
+	var out []int
+	if vt.Bound("allOptionSubsets", 0, 1) == 1 {
+		for s := 0; s < 1<<n; s++ {
+			out = append(out, s)
+		}
+		return out
+	}
+	out = append(out, 0)
+	for i := 0; i < n; i++ {
+		out = append(out, 1<<i)
+	}
+	for i := 0; i < n; i++ {
+		for j := i + 1; j < n; j++ {
+			out = append(out, 1<<i|1<<j)
+		}
+	}
+	out = append(out, 1<<n-1)
+	return out
+}
+
 // Foreign fills default_foreign_message (absent, or present with symbolic leaves c, d).
 func Foreign(m *testproto.TestAllTypes, name string) {
 	if vt.Choose(name+".hasForeign", 2) == 1 {
